@@ -34,6 +34,12 @@ def main(argv):
         "impls": len(F.impls()),
         "facts_stamp": F.meta["stamp"],
     }
+    if F.renames:
+        # functions of this tree that were recognised as renamed / moved functions of the reference tree (vf/facts.py): the rules
+        # read them under their reference names
+        meta["renamed_functions"] = dict(sorted(F.renames.items()))
+        for q, m in sorted(F.renames.items()):
+            print("note: %s is read as the reference tree's %s (renamed or moved)" % (q, m))
     ctx = {"F": F, "FM": FM, "tier": tier}
     results = mod.rules(ctx)
     if tier == "thorough" and hasattr(mod, "thorough_rules"):
